@@ -590,12 +590,13 @@ class Supervisor(PoolThread):
 
 class TaskHandler(PoolThread):
 
-    def __init__(self, taskqueue, put, outqueue, pool, cache):
+    def __init__(self, taskqueue, put, outqueue, pool, cache, putlock=None):
         self.taskqueue = taskqueue
         self.put = put
         self.outqueue = outqueue
         self.pool = pool
         self.cache = cache
+        self.putlock = putlock
         super().__init__()
 
     def body(self):
@@ -622,6 +623,10 @@ class TaskHandler(PoolThread):
                             cache[job]._set(ind, (False, ExceptionInfo()))
                         except KeyError:
                             pass
+                        # no result will ever arrive for this job: give
+                        # back the slot apply_async() took for it.
+                        if self.putlock is not None and ind is None:
+                            self.putlock.release()
                 else:
                     if set_length:
                         debug('doing set_length()')
@@ -1100,7 +1105,8 @@ class Pool:
                                               self._quick_put,
                                               self._outqueue,
                                               self._pool,
-                                              self._cache)
+                                              self._cache,
+                                              self._putlock)
         if threads:
             self._task_handler.start()
 
